@@ -3,6 +3,7 @@
 package executor
 
 import (
+	"github.com/meshplus/bitxhub-core/agency"
 	"sort"
 
 	"github.com/cbergoon/merkletree"
@@ -37,3 +38,6 @@ func VerifCalcMerkleRoot(hs []*types.Hash) (*types.Hash, error) {
 	}
 	return calcMerkleRoot(cs)
 }
+
+// VerifContracts returns the registry of built-in contracts exactly as the executor builds it.
+func (exec *BlockExecutor) VerifContracts() map[string]agency.Contract { return exec.registerBoltContracts() }
